@@ -313,16 +313,19 @@ class Run:
         if not os.environ.get("VERIF_NO_EVIDENCE"):
             os.makedirs(os.path.join(VERIF, "evidence"), exist_ok=True)
             json.dump(ev, open(os.path.join(VERIF, "evidence", self.prop + ".json"), "w"), indent=1)
-        for l in vio_lines:
+        for l in sorted(set(vio_lines)):
             self.say(l)
         nfun = len([f for f in funcs if f["status"] == "verified"])
         self.say("%s tier=%s: functions under contract=%d verified=%d obligations=%d discharged=%d bounded=%s extra=%s wall=%.1fs" % (
-            self.prop, self.tier, len(funcs), nfun, len(proof_obls), len(discharged),
+            self.prop, self.tier, len(funcs), nfun, ev["coverage"]["obligations"], ev["coverage"]["discharged"],
             [(b["name"], b["cases"], len(b["fails"])) for b in bounded], [(e.get("name"), e.get("cases")) for e in extra], time.time() - self.t0))
         if len(funcs) + len(bounded) + len(extra) == 0:
             raise EngineError("no obligations and no cases were generated (vacuous check)")
         if cfg.get("govc") and not proof_obls:
             raise EngineError("govc generated zero obligations (vacuous check)")
+        for e in extra:
+            if e.get("must_have_obligations") and not e.get("obligations"):
+                raise EngineError("%s generated zero obligations (vacuous check)" % e.get("name"))
         return 1 if vio_lines else 0
 
     def match_known(self, obligation=None, case=None):
@@ -362,10 +365,14 @@ class Run:
             "generator_notes": notes,
         }
         for e in extra:
+            if "obligations" in e:
+                cov["obligations"] += e["obligations"]
+                cov["discharged"] += e.get("discharged", 0)
+                cov["discharged_by_backend"][e.get("backend", "FRAME")] = cov["discharged_by_backend"].get(e.get("backend", "FRAME"), 0) + e.get("discharged", 0)
             cov.setdefault("other_checks", []).append({k: v for k, v in e.items() if k != "violations"})
             if e.get("samples"):
                 cov["samples"] += e["samples"][:6]
-            for k in ("programs", "disagreements_checked", "evaluations", "distinct_nontrivial", "exhaustive", "states", "transitions"):
+            for k in ("programs", "disagreements_checked", "evaluations", "distinct_nontrivial", "exhaustive", "states", "transitions", "cells_checked"):
                 if k in e:
                     cov[k] = cov.get(k, 0) + e[k] if isinstance(e[k], int) and not isinstance(e[k], bool) else e[k]
         nb = sum(b["cases"] for b in bounded)
